@@ -119,7 +119,7 @@ func write(w *parse.BinaryWriter, v val) {
 	case "i16":
 		w.WriteInt16(int16(v.u))
 	case "i24":
-		w.WriteInt24(int32(v.u))
+		w.WriteInt24(int32(uint32(v.u)<<8) >> 8) // the sign-extended 24-bit value
 	case "i32":
 		w.WriteInt32(int32(v.u))
 	case "i64":
@@ -147,7 +147,12 @@ func read(r *parse.BinaryReader, v val) (uint64, []byte) {
 	case "i16":
 		return uint64(uint16(r.ReadInt16())), nil
 	case "i24":
-		return uint64(uint32(r.ReadInt24()) & 0xffffff), nil
+		x := r.ReadInt24()
+		if x < -1<<23 || x >= 1<<23 {
+			// not a sign-extended 24-bit value: mark it so that it differs from every canonical form
+			return 1<<40 | uint64(uint32(x)), nil
+		}
+		return uint64(uint32(x) & 0xffffff), nil
 	case "i32":
 		return uint64(uint32(r.ReadInt32())), nil
 	case "i64":
